@@ -7,6 +7,7 @@ import ALV.Lemmas.C08Hist
 import ALV.Lemmas.C08Call
 import ALV.Lemmas.C08Mut
 import ALV.Lemmas.C08Table
+import ALV.Lemmas.C08NonFin
 import ALV.Common.Audit
 
 namespace ALV.Props.C08
@@ -747,8 +748,42 @@ theorem blocksCall_eq_spec (dflt : α) (size hop : Num) (padval : Option α) (it
           | true =>
             simp only [Bool.not_true, Bool.false_eq_true, if_false]
             exact hop_table sz q false (fun h => absurd h (by decide)) _ xs e
+        | fnf k =>
+          simp only [initHop]
+          cases it with
+          | false => rfl
+          | true =>
+            simp only [Bool.not_true, Bool.false_eq_true, if_false]
+            exact grunX_table sz k _ xs e
         | other => rfl
   | _ => rfl
+
+/-- **C08.10c (`hop` = `float('inf')`, `float('-inf')`, `float('nan')`)**: never an error and never a second
+block: block 0 when `size ≥ 1` items were pulled, then the source is read to its end (an endless one for ever)
+and the run ends cleanly; when fewer than `size` items came (or `size = 0`) the padded (empty) block comes out
+iff `hop = +inf` and at least one item came — `max(size - hop, 0)` is `0` for `+inf`, `+inf` for `-inf`, and
+`nan` for `nan`, against which every comparison fails.  Unlike a finite non-whole float hop (`call_nonwhole_hop`)
+there is no TypeError at the end: the index `±inf` / `nan` is never greater than itself. -/
+theorem call_nonfinite_hop (dflt : α) (s : Nat) (hs : (s : Int) ≤ maxSsize) (k : NonFin) (padval : Option α)
+    (xs : List α) (e : Ending) :
+    blocksCall dflt (.int s) (.fnf k) padval true xs e = nonFinTable s k (padval.getD dflt) xs e ∧
+    ((nonFinTable s k (padval.getD dflt) xs e).ending = .stop ↔ e = .stop) ∧
+    (nonFinTable s k (padval.getD dflt) xs e).pulled = xs.length ∧
+    (0 < s → s ≤ xs.length → (nonFinTable s k (padval.getD dflt) xs e).events = [(s, xs.take s)]) := by
+  have h1 : ¬ ((s : Int) < 0) := by omega
+  have h2 : ¬ (maxSsize < (s : Int)) := by omega
+  refine ⟨?_, ?_, ?_, ?_⟩
+  · rw [blocksCall_eq_spec]
+    simp only [blocksCallSpec, if_neg h1, if_neg h2, Int.toNat_natCast, Bool.not_true, Bool.false_eq_true, if_false]
+  · unfold nonFinTable finish
+    cases e <;> (split <;> simp <;> split <;> simp)
+  · unfold nonFinTable finish
+    cases e <;> (split <;> simp <;> split <;> simp)
+  · intro h0 hle
+    have hz : ¬ s = 0 := by omega
+    have hn : ¬ (k = .pinf ∧ 0 < xs.length ∧ xs.length < s) := by omega
+    unfold nonFinTable finish
+    cases e <;> simp [hz, hle, hn]
 
 /-- the rows of the table that were open after round 3, read off `blocksCall_eq_spec`: a float / Fraction hop
 that is NOT a whole number, at least `size ≥ 1` items: block 0 when `size` items were pulled, nothing more in
@@ -874,6 +909,11 @@ example : (blocksCall (99:Nat) (.int 2) (.flt (1/2)) none true [0,1,2,3,4] .stop
 example : (blocksCall (99:Nat) (.int 2) (.frac (7/2)) none true [0,1,2] .stop).ending = .stop := by decide +kernel
 example : (blocksCall (99:Nat) (.int 4) (.flt (5/2)) none true [0,1] .stop).events = [(2, [0,1,99,99])] := by decide +kernel
 example : (1/2 : Rat).den ≠ 1 ∧ (0:Nat) < 2 ∧ ((2:Nat):Int) ≤ maxSsize ∧ 2 ≤ [0,1,2,3,4].length := by decide +kernel
+-- non-finite hops: size 3, hop = +inf, two items: the padded block; hop = nan: nothing; five items: block 0 only
+example : (blocksCall (99:Nat) (.int 3) (.fnf .pinf) none true [0,1] .stop).events = [(2, [0,1,99])] ∧
+    (blocksCall (99:Nat) (.int 3) (.fnf .nan) none true [0,1] .stop).events = [] ∧
+    (blocksCall (99:Nat) (.int 3) (.fnf .ninf) none true [0,1,2,3,4] .stop).events = [(3, [0,1,2])] ∧
+    (blocksCall (99:Nat) (.int 3) (.fnf .ninf) none true [0,1,2,3,4] .stop).ending = .stop := by decide +kernel
 -- hypotheses of `hop_table`: an int index needs a whole hop, a float one nothing
 example : (true = true → ((-3 : Int) : Rat).den = 1) ∧ (false = true → (1/2 : Rat).den = 1) := by decide +kernel
 -- any caller, hop < size: three pops and an appendleft on block 0 (size 4, hop 2)
